@@ -71,6 +71,27 @@ def suggest_chain(ctx, rule):
     ctx.check(ok, R, f.short, "reuse-first", message="a new value can be chosen although the parameter was already suggested in this trial",
               how="all value sources dominated by `name not in trial.distributions`")
 
+    # the enqueued value reaches the caller verbatim: the local that receives self._fixed_params[name] is what _suggest returns, and nothing
+    # re-assigns it on the way (a round trip through the internal float form turns 2**53 + 1 into 2**53 and 2.0 into the choice 2)
+    for fr in fixed_read:
+        tg = fr.ast.targets[0]
+        if not isinstance(tg, ast.Name):
+            ctx.fail(R, f.short, "fixed-value-handed-out-verbatim", f"the fixed value is stored into `{norm(tg)}`, not a local")
+            continue
+        var = tg.id
+        after = g.reachable([m for k, m in fr.succ if k not in ("e", "reraise")])
+        re_as = [n for n in after if n is not fr and n.kind == "stmt" and isinstance(n.ast, (ast.Assign, ast.AugAssign, ast.AnnAssign))
+                 and any(isinstance(x, ast.Name) and x.id == var for t_ in (n.ast.targets if isinstance(n.ast, ast.Assign) else [n.ast.target]) for x in [t_])
+                 and not g.dominated_by(n, [], pos_edges(t_fixed, False))]
+        rets_ = [n for n in after if n.kind == "stmt" and isinstance(n.ast, ast.Return)]
+        ok = not re_as and bool(rets_) and all(isinstance(n.ast.value, ast.Name) and n.ast.value.id == var for n in rets_)
+        ctx.check(ok, R, f.short, "fixed-value-handed-out-verbatim",
+                  message=f"the enqueued value read into `{var}` is "
+                          + (f"re-assigned (`{norm(re_as[0].ast)[:70]}`) before _suggest returns" if re_as else f"not what _suggest returns ({[norm(n.ast.value) for n in rets_]})")
+                          + ": the worker does not receive the enqueued parameter value verbatim (an int above 2**53 is rounded, a value equal but not identical to a choice is replaced)",
+                  how=f"`{var}` = self._fixed_params[name] is returned without any further assignment")
+
+
 def fixed_iff_rule(ctx, rule):
     """Trial._is_fixed_param returns True exactly when the name is among the trial's fixed (enqueued)
     parameters - whatever the value is (None and out-of-range values included: the caller warns)."""
